@@ -114,6 +114,13 @@ func (fs LocalFileSystem) ReadDir(ctx context.Context, name string, recursive bo
 		return nil, err
 	}
 
+	// filepath.Walk describes a symbolic link it is started on instead of
+	// following it: the collection (or the served directory itself) may be
+	// reached through one, like Stat and Open reach it
+	if fi, err := os.Lstat(path); err == nil && fi.Mode()&os.ModeSymlink != 0 {
+		path += string(filepath.Separator)
+	}
+
 	var l []FileInfo
 	err = filepath.Walk(path, func(p string, fi os.FileInfo, err error) error {
 		if err != nil {
